@@ -62,4 +62,18 @@ def run(ck, facts, tier):
     c09.rule_gensym(ck, facts, lang, R="C09.gensym")
     c09.rule_subst_order(ck, facts, lang)
     c17.rule_scope(ck, facts, R="C17.scope")
+    # a binder is in force for its continuation (renaming a binder must not change which definition a later use means)
+    c17.rule_context_bracket(ck, facts)
+    # whether a definition is recursive (its own name is in scope in its body) is decided by a search predicate over
+    # the body; it must look everywhere, quoted code included
+    from ..rules import exprwalk
+    from ..facts import callee as _callee
+
+    near = set()
+    for g in lang.fns:
+        if g.short.endswith("recursecheck::convert_recurse") or g.root.endswith("recursecheck::convert_recurse"):
+            for _, t in g.calls():
+                near.add(_callee(t) or "")
+    exprwalk.run(ck, facts, "C10.recursion-predicate", only=lambda f: f.path in near)
+    exprwalk.run_gating(ck, facts, "C10.recursion-gating", only=lambda f: f.path in near)
     ck.not_decided("that consistently renaming a binder inside a macro body leaves program outputs unchanged (behavioural)")
